@@ -83,6 +83,10 @@ def classify(rec):
     form = rec.get("form")
     if form not in ("zoned", "mapped") or rec.get("plain_out") is None:
         return None
+    # The form must be what makes the difference: the plain form of the same
+    # request behaves as the spec says (direction A) / differently (traces).
+    if rec.get("plain_agrees") is False or (rec.get("plain_agrees") is None and rec["plain_out"] == rec["got"]):
+        return None
     key = KEY_ZONED if form == "zoned" else KEY_MAPPED
     try:
         lit = literal_blocked(rec["conc"], rec["addr"], rec.get("id"))
@@ -129,7 +133,8 @@ def rec_of_bad_row(r):
         level = "linklocal"
     return {"form": form, "level": level, "proto": req.get("proto"), "conc": r["conc"],
             "addr": addr, "plain_addr": plain_of(addr) if addr else addr, "id": req.get("id"),
-            "got": str(r["got"]).lower(), "plain_out": str(r.get("plain_out")).lower() if r.get("plain_out") is not None else None}
+            "got": str(r["got"]).lower(), "plain_out": str(r.get("plain_out")).lower() if r.get("plain_out") is not None else None,
+            "plain_agrees": r.get("plain_agrees")}
 
 
 WHAT = {
@@ -164,7 +169,7 @@ def vacuity(mc):
     for m in re.finditer(r"^<(\w+) line \d+, col \d+ to line \d+, col \d+ of module Access(?: \([^)]*\))?>: (\d+):(\d+)$", out, re.M):
         acts.setdefault(m.group(1), 0)
         acts[m.group(1)] += int(m.group(3))
-    if acts.get("SetAccess", 0) == 0 or acts.get("Next", 0) == 0:
+    if acts.get("SetLists", 0) == 0 or acts.get("Next", 0) == 0:
         return "an action of Access.tla was never taken in the mc universe: %s" % acts
     if mc.get("zero_cov"):
         return "expressions never evaluated in the mc universe: %s" % mc["zero_cov"][:5]
@@ -252,12 +257,23 @@ def trace_disagreements(ctx, rows, verdict):
     rest is attributed to the signature."""
     bad = sorted(verdict["bad"])
     cur, by_sig = None, {}
-    setline = {}
+    setline, history, before = {}, {}, {}
+    # The trace is a history of installations on two live servers (handler
+    # level and transport level): a rejected line is re-executed after the
+    # posts that preceded its configuration on that server and after the
+    # earlier requests for the same name under that configuration.
+    posts, since = {"handler": [], "transport": []}, []
     for i, r in enumerate(rows, 1):
         if r["k"] == "set":
-            cur = r
+            if cur is not None:
+                posts[cur["lvl"]].append(cur["conc"])
+            cur, since = r, []
         else:
             setline[i] = cur
+            history[i] = [[c["allowed"], c["disallowed"], c["hosts"]] for c in posts[cur["lvl"]][-3:]]
+            nm = r["req"]["name"].lower().rstrip(".")
+            before[i] = [q for q in since if q["name"].lower().rstrip(".") == nm][-6:]
+            since.append(r["req"])
     for i in bad:
         r = rows[i - 1]
         if r["k"] == "set":
@@ -271,7 +287,8 @@ def trace_disagreements(ctx, rows, verdict):
         if sig == ("set",):
             continue
         for i in idx[:3]:
-            steps.append({"conc": setline[i]["conc"], "req": rows[i - 1]["req"]})
+            steps.append({"conc": setline[i]["conc"], "req": rows[i - 1]["req"],
+                          "history": history[i], "before": before[i]})
             owner.append((sig, i))
     res = {"rejected": len(bad), "reproduced": 0, "flaky": 0, "known": 0}
     if ("set",) in by_sig:
@@ -299,7 +316,8 @@ def trace_disagreements(ctx, rows, verdict):
                "addr": addr, "plain_addr": plain_of(addr), "id": req.get("id"), "got": line["out"],
                "plain_out": line.get("plain_out")}
         key = classify(rec)
-        record = {"trace_line": i, "line": line, "set": st, "classification": rec}
+        record = {"trace_line": i, "line": line, "set": st, "classification": rec,
+                  "history": history[i], "before": before[i]}
         verdict_ = ctx.disagreement(key, record, "trace line %d rejected by TraceAccess.tla: %s over %s from %s (id %r) for %s under allowed=%s disallowed=%s hosts=%s" % (
             i, line["out"], req["proto"], addr, req.get("id"), req["name"], st["conc"]["allowed"], st["conc"]["disallowed"], st["conc"]["hosts"]))
         res["reproduced"] += len(by_sig[sig])
@@ -413,10 +431,11 @@ def replay(ctx, path):
     stored = json.load(open(path))["record"]
     if "row" in stored:
         r = stored["row"]
-        step = {"conc": dict(r["conc"]), "req": r["req"]}
+        step = {"conc": dict(r["conc"]), "req": r["req"], "history": r.get("history") or [], "before": r.get("before") or []}
         want = [str(w) for w in r["want"]]
     else:
-        step = {"conc": dict(stored["set"]["conc"]), "req": stored["line"]["req"]}
+        step = {"conc": dict(stored["set"]["conc"]), "req": stored["line"]["req"],
+                "history": stored.get("history") or [], "before": stored.get("before") or []}
         want = None
     for k in ("allowed", "disallowed", "hosts"):
         step["conc"][k] = step["conc"].get(k) or []
@@ -432,6 +451,7 @@ def replay(ctx, path):
         # the replay shows whether the rejected outcome repeats.
         expected = {"outcome": "anything but the rejected %r (see the stored line and set)" % stored["line"]["out"]}
         bad = out == stored["line"]["out"]
-    print(json.dumps({"lists": step["conc"], "request": step["req"], "expected": expected, "observed": out,
+    print(json.dumps({"posted_before": step["history"], "lists_posted_last": step["conc"], "asked_before": step["before"],
+                      "request": step["req"], "expected": expected, "observed": out,
                       "observers_moved": d, "reproduced": bad}, indent=1))
     return 1 if bad else 0
